@@ -222,7 +222,10 @@ func (rn *runner) segmented(w *World, r *lib.RNG, inputs [][]byte) {
 	for i := 0; i < nHTTP && i < len(inputs); i++ {
 		in := inputs[i]
 		pat := segPatterns[8+i%6]
-		base := w.handle(in)
+		base, ok := rn.directOK(w, in, "http-chunked")
+		if !ok {
+			continue
+		}
 		w.reset()
 		body, err := chunkedPost(addr, in, pat)
 		calls, recErrs := w.taken()
@@ -252,10 +255,14 @@ func (rn *runner) segmented(w *World, r *lib.RNG, inputs [][]byte) {
 	}
 	defer c.conn.CloseNow()
 	nWS := rn.f.Scale(40, 500)
+	wsHangs := 0
 	for i := 0; i < nWS && i < len(inputs); i++ {
 		in := inputs[i]
 		pat := segPatterns[(7+i)%len(segPatterns)]
-		base := w.handle(in)
+		base, ok := rn.directOK(w, in, "ws-fragments")
+		if !ok {
+			continue
+		}
 		w.reset()
 		msgs, hung, err := c.exchangeFragments(in, pat.sizes)
 		calls, _ := w.taken()
@@ -269,6 +276,10 @@ func (rn *runner) segmented(w *World, r *lib.RNG, inputs [][]byte) {
 		switch {
 		case hung:
 			res.Violate(lib.Violation{Sig: "server-hangs", What: "[ws fragments " + pat.name + "] no answer", Replay: map[string]any{"via": "ws-fragments", "segments": pat.sizes, "input_text": string(in)}})
+			c.conn.CloseNow()
+			if wsHangs++; wsHangs >= 3 || c.dial() != nil {
+				return
+			}
 		case err != nil:
 			res.Violate(lib.Violation{Sig: "connection-dropped-instead-of-answer", What: "[ws fragments " + pat.name + "] " + err.Error(),
 				Replay: map[string]any{"via": "ws-fragments", "segments": pat.sizes, "input_text": string(in)}})
@@ -332,7 +343,7 @@ func (c *wsClient) exchangeFragments(msg []byte, sizes []int) (got [][]byte, hun
 	c.n++
 	sentinelID := fmt.Sprintf("__sentinel__%d", c.n)
 	sentinel := fmt.Sprintf(`{"jsonrpc":"2.0","method":"noargs","id":%q}`, sentinelID)
-	ctx, cancel := context.WithTimeout(context.Background(), 30*time.Second)
+	ctx, cancel := context.WithTimeout(context.Background(), 10*time.Second)
 	defer cancel()
 	wr, err := c.conn.Writer(ctx, websocket.MessageText)
 	if err == nil {
